@@ -722,6 +722,24 @@ fn nesting_inputs(depths: &[usize]) -> Vec<(String, String)> {
         v.push((format!("not{}", d), format!("X = {}1\n", rep("NOT "))));
         v.push((format!("call{}", d), format!("X = {}1{}\n", rep("ABS("), rep(")"))));
         v.push((format!("index{}", d), format!("DIM A(10)\nX = {}1{}\n", rep("A("), rep(")"))));
+        // calls of BUILT-IN functions nested in each other's arguments (ABS is not a built-in here: `call` above nests
+        // undefined-function calls); added after a wave-9 seed whose checker visited built-in arguments twice per level
+        v.push((format!("builtin-str{}", d), format!("X$ = {}\"a\"{}\n", rep("UCASE$(LTRIM$("), rep("))"))));
+        v.push((format!("builtin-num{}", d), format!("X = {}1{}\n", rep("LEN(STR$("), rep("))"))));
+        v.push((format!("builtin-val{}", d), format!("X = {}\"1\"{}\n", rep("VAL(STR$("), rep("))"))));
+        v.push((format!("builtin-mid{}", d), format!("X$ = {}\"abc\"{}\n", rep("MID$("), rep(", 1, 2)"))));
+        v.push((format!("builtin-sub-arg{}", d), format!("PRINT {}\"a\"{}\n", rep("LCASE$(RTRIM$("), rep("))"))));
+        v.push((
+            format!("userfn{}", d),
+            format!("DECLARE FUNCTION F (x)\nX = {}1{}\nFUNCTION F (x)\nF = x\nEND FUNCTION\n", rep("F("), rep(")")),
+        ));
+        v.push((
+            format!("userfn-builtin{}", d),
+            format!("DECLARE FUNCTION F (x)\nX = {}1{}\nFUNCTION F (x)\nF = x\nEND FUNCTION\n", rep("F(LEN(STR$("), rep(")))")),
+        ));
+        v.push((format!("index-builtin{}", d), format!("DIM A(10)\nX = {}1{}\n", rep("A(LEN(STR$("), rep(")))"))));
+        v.push((format!("paren-builtin{}", d), format!("X = {}1{}\n", rep("(LEN((STR$("), rep("))))"))));
+        v.push((format!("neg-builtin{}", d), format!("X = {}1{}\n", rep("-LEN(STR$("), rep("))"))));
         v.push((format!("plus-chain{}", d), format!("X = 1{}\n", rep(" + 1"))));
         v.push((format!("and-chain{}", d), format!("X = 1{}\n", rep(" AND 1 < 2"))));
         v.push((format!("dots{}", d), format!("X{} = 1\n", rep(".A"))));
@@ -971,7 +989,7 @@ fn main() {
     }
     rep.notes.push(format!("{} prefixes of corpus programs", n_prefix));
     let depths: Vec<usize> =
-        if thorough { vec![1, 2, 3, 5, 8, 13, 21, 34, 55, 89, 144, 200, 250, 300] } else { vec![1, 2, 5, 20, 100, 300] };
+        if thorough { vec![1, 2, 3, 5, 8, 13, 21, 27, 34, 42, 55, 89, 144, 200, 250, 300] } else { vec![1, 2, 5, 20, 30, 45, 100, 300] };
     let nesting = nesting_inputs(&depths);
 
     // ---- 4. run ---------------------------------------------------------------------------------------------
